@@ -5,6 +5,7 @@ cd "$(dirname "$0")"
 export CARGO_NET_OFFLINE=true
 mkdir -p .work/tmp evidence replays
 python3 tools/extract_facts.py
+python3 tools/translate_src.py
 (cd lean && lake build TcVerif tcmodel TcVerif.Tools.Audit)
 (cd harness && cargo build --offline)
 echo setup-ok
